@@ -234,6 +234,9 @@ func (hs *serverHandshakeState) handshake() error {
 		if _, err = c.flush(); err != nil {
 			return err
 		}
+		// 启动重传定时器：否则 readFinished 中的 fired() 永远为 false，
+		// 会话重用时服务端的 flight 丢失后不会被重传
+		c.retransmitTimer.reset()
 		if err = hs.readFinished(nil); err != nil {
 			return err
 		}
